@@ -8,7 +8,7 @@ import threading
 
 FAMILY = 'Push'
 DRIVER = 'push'
-HOOK_COMMITS = ['8304a52']          # /repo: start gate, settable back-off tick, push restart/wipe/inspection
+HOOK_COMMITS = ['8304a52', '16e09a3']          # /repo: start gate, settable back-off tick, push restart/wipe/inspection
 FIX_COMMITS = ['a7d6dd9', 'e949624']
 
 PROPS = {
